@@ -226,6 +226,11 @@ impl<B: StarkField, H: ElementHasher<BaseField = B>> RandomCoin for DefaultRando
         // draw values from PRNG until we get as many unique values as specified by num_queries
         let mut values = Vec::new();
         for _ in 0..1000 {
+            // stop as soon as we have as many values as requested (possibly none at all)
+            if values.len() == num_values {
+                break;
+            }
+
             // get the next pseudo-random value and read the first 8 bytes from it
             let bytes: [u8; 8] = self.next().as_bytes()[..8].try_into().unwrap();
 
@@ -234,9 +239,6 @@ impl<B: StarkField, H: ElementHasher<BaseField = B>> RandomCoin for DefaultRando
             let value = (u64::from_le_bytes(bytes) & v_mask) as usize;
 
             values.push(value);
-            if values.len() == num_values {
-                break;
-            }
         }
 
         if values.len() < num_values {
